@@ -289,6 +289,8 @@ func init() {
 			r.Try(func() { ruleTracking(w, r, "R01.8", "", "") })
 			r.Rule("R01.9", 5, "exactly its outputs are what is resolved: createInstance calls the descriptor's own constructor and answers instance registrations with the descriptor's own instance")
 			r.Try(func() { ruleFunctionIdentity(w, r, "R01.9") })
+			r.Rule("R01.10", 1, "only scoped result-less registrations enter the list of per-scope initializers (a singleton initializer in it would run again for every scope)")
+			r.Try(func() { ruleInitializerListMembership(w, r, "R01.10") })
 		})
 	register("C02",
 		"Structural necessary conditions of 'scoped: one instance per scope, never shared': the scoped cache is written only in the Scoped clause of setInstance, starts as a fresh map in every scope and is reached only through the receiver; the Scoped clause of resolve consults the cache on the resolved key, returns the hit, constructs only on a miss; every success exit of createInstance has passed setInstance; the initializer pass runs once per created scope; the miss-test/fill pair must be atomic (known finding D2: it is not). NOT decided: identity/counts; fairness of retries.",
@@ -324,6 +326,12 @@ func init() {
 			r.Try(func() { ruleAtomicRMW(w, r, "R02.10", la) })
 			r.Rule("R02.11", 1, "a failed construction leaves no trace and may be retried: no error exit of resolve is reachable with state recorded by resolve or its helpers and not retired")
 			r.Try(func() { ruleResolveWritesNothing(w, r, "R02.11") })
+			r.Rule("R02.12", 5, "initializers and constructors are never identified by their code pointer alone (closures of one literal share it: de-duplicating by it makes all but one of them run zero times)")
+			r.Try(func() { ruleFunctionIdentity(w, r, "R02.12") })
+			r.Rule("R02.13", 1, "only scoped result-less registrations enter the list of per-scope initializers")
+			r.Try(func() { ruleInitializerListMembership(w, r, "R02.13") })
+			r.Rule("R02.14", 1, "outputs of one constructor call are told apart by type and key")
+			r.Try(func() { ruleIdentityComparisons(w, r, "R02.14") })
 		})
 	register("C03",
 		"Structural necessary conditions of 'transient: a fresh instance for every resolution and injection site': the Transient clause of resolve never consults a cache and every exit comes from a fresh createInstance; the Transient clause of setInstance writes no cache; resolution entry points (including GetGroup) memoise nothing; the invoker, builder and cached analysis records hold no per-call state (record confinement); arguments are resolved one by one per invocation. NOT decided: counts versus number of request sites.",
@@ -348,6 +356,10 @@ func init() {
 			r.Try(func() { ruleEntryPointsStoreNothing(w, r, "R03.4") })
 			r.Rule("R03.5", 1, "wrappers on the way from resolve to the constructing function never hand a transient request an instance this call did not produce")
 			r.Try(func() { ruleCreateChain(w, r, "R03.5") })
+			r.Rule("R03.6", 3, "every descriptor derived for a multi-output registration copies Lifetime from the base descriptor (the zero value is Singleton)")
+			r.Try(func() { ruleFamilyCopies(w, r, "R03.6") })
+			r.Rule("R03.7", 1, "no recycled storage on the resolution path (no sync.Pool)")
+			r.Try(func() { ruleNoPooledInvocationState(w, r, "R03.7") })
 		})
 	register("C04",
 		"Structural necessary conditions of wiring fidelity: a function's code pointer is never an identity on its own and createInstance calls descriptor.Constructor of the descriptor being constructed (instances bypass the invoker); group members are resolved and registered in order and no ordered result depends on map iteration; the four struct-field walkers apply the same skip predicates before touching a field, the two resolvers dispatch group/name/plain in the same priority, one Dependency per parameter with identity copied; only the optional tag lets a failed field resolution continue; key literals keep every identity component; family fan-out looks members up under the identity they were registered with (known finding D4). NOT decided: that the right instance value arrives.",
@@ -392,6 +404,12 @@ func init() {
 			r.Try(func() { ruleKeyLiterals(w, r, "R05.7") })
 			r.Rule("R05.8", 10, "analysis = runtime: the dependency list is derived from exactly the fields/parameters the invoker resolves (sibling agreement of the struct walkers and resolvers)")
 			r.Try(func() { ruleFieldFilters(w, r, "R05.8") })
+			r.Rule("R05.9", 1, "the descriptor list the graph is built from loses exactly the registration that was removed (selected by identity)")
+			r.Try(func() { ruleRemovalIdentity(w, r, "R05.9") })
+			r.Rule("R05.10", 1, "a descriptor's dependency list is the analyzer's list, unfiltered")
+			r.Try(func() { ruleDependenciesUnfiltered(w, r, "R05.10") })
+			r.Rule("R05.11", 1, "the edge table and the nodes' own dependency lists describe the same edges")
+			r.Try(func() { ruleEdgesAgreeWithNodeLists(w, r, "R05.11") })
 		})
 	register("C06",
 		"Structural necessary conditions of 'build is deterministic, order-independent and creates dependencies first': group consumers are ordered after members only if group edges exist (R-GROUPLINK) and every descriptor and dependency is in the graph; eager creation walks the sorted slice front to back; graph mutators mark both caches dirty and the sort cache is written only with its flag cleared; lifetime validation fills its table completely before the first check (no verdict depends on registration or map order); the validation steps are unconditional. NOT decided: Kahn's algorithm correctness; isomorphism of object graphs under permutation.",
@@ -414,6 +432,10 @@ func init() {
 			r.Try(func() { ruleListOrderPreserved(w, r, "R06.6", NewLockAnalysis(w)) })
 			r.Rule("R06.7", 1, "the degree recomputation counts every edge")
 			r.Try(func() { ruleDegreeCountsEveryEdge(w, r, "R06.7") })
+			r.Rule("R06.8", 1, "no slice stored in the graph's tables is rewritten in place")
+			r.Try(func() { ruleNoInPlaceReuse(w, r, "R06.8") })
+			r.Rule("R06.9", 1, "the edge table and the nodes' own dependency lists describe the same edges")
+			r.Try(func() { ruleEdgesAgreeWithNodeLists(w, r, "R06.9") })
 		})
 	register("C07",
 		"Structural necessary conditions of 'no captive dependencies': a checked lifetime validation dominates provider allocation; only Lifetime==Scoped exempts a dependent and no attribute of a dependency (such as optional) exempts it; the table is complete before the first check, every registration is checked, the dependency loop is left only by continue or by returning the conflict; group dependencies are checked against every member by (Type, Group), plain ones by (Type, Key); the conflict is raised exactly on ==Scoped; derived descriptors copy Lifetime and Dependencies. NOT decided: the 'no false rejection' direction for all sets.",
